@@ -146,6 +146,8 @@ def run(tier):
     if r.rc != 0:
         chk.notes.append("MODEL-CEX on Shutdown.tla")
         vlib.log("MODEL-CEX (not a verdict): Shutdown.tla")
+    # unbounded complement (TLA+ proof system): the two safety clauses for any number of backends, rounds and Stop calls
+    vlib.tlapm(chk, "ShutdownProofs")
     h = vlib.tlc("Shutdown", "MCShutdownHazard.cfg", workers=vlib.NCPU, timeout=300, deadlock=False)
     chk.add_tlc("M hazard: wg.Add from zero while Stop's Wait may run (model-only, inside sync.WaitGroup)", h)
     chk.cov["model_only_hazard_waitgroup_add_vs_wait"] = (h.rc == 12)
